@@ -23,6 +23,7 @@ partial def exprStr : MExpr → String
   | .add a b => s!"(.add {exprStr a} {exprStr b})"
   | .sub a b => s!"(.sub {exprStr a} {exprStr b})"
   | .mul a b => s!"(.mul {exprStr a} {exprStr b})"
+  | .wmul a b => s!"(.wmul {exprStr a} {exprStr b})"
   | .eq a b => s!"(.eq {exprStr a} {exprStr b})"
   | .ne a b => s!"(.ne {exprStr a} {exprStr b})"
   | .lt a b => s!"(.lt {exprStr a} {exprStr b})"
@@ -145,7 +146,7 @@ def gcontent (prog : List MStep) (init max : Nat) (fail : Bool) (deltas : List N
 def cmd (ws : List String) : Option String :=
   match ws with
   | ["gstatus"] =>
-    some s!"rul {b01 (ReadsUnderLock Gen.growSteps)} lostupdate {b01 (lostUpdateCheck Gen.growSteps)} wrapzero {b01 (wrapZeroCheck Gen.growSteps)} sizerace {b01 (sizeRaceCheck Gen.growSteps)} allocsize {(allocMem 1 65536 true).size} rulrepaired {b01 (ReadsUnderLock repairedSteps)} rulsize {b01 (ReadsUnderLock Gen.sizeSteps)}"
+    some s!"rul {b01 (ReadsUnderLock Gen.growSteps)} lostupdate {b01 (lostUpdateCheck Gen.growSteps)} wrapzero {b01 (wrapZeroCheck Gen.growSteps)} sizerace {b01 (sizeRaceCheck Gen.growSteps)} allocsize {(allocMem 1 65536 true).size} rulrepaired {b01 (ReadsUnderLock repairedSteps)} rulsize {b01 (ReadsUnderLock Gen.sizeSteps)} nodatawrite {b01 (SharedNeverWritesData Gen.growSteps)} zerofillcs {b01 (ZeroFillInsideCS Gen.growSteps)}"
   | ["gsteps", p] =>
     match progOf p with
     | some prog => some ("; ".intercalate (prog.map stepStr))
